@@ -28,6 +28,7 @@ var gens = []generator{
 	{file: "Nucleotide.lean", src: "nucleotide.go", run: genNucleotide},
 	{file: "Date.lean", src: "seqio/date.go", run: genDate},
 	{file: "MolTop.lean", src: "molecule.go, topology.go", run: genMolTop},
+	{file: "PanicSites.lean", src: "the parser files anchored by C07", run: genPanicSites},
 }
 
 func writeIfChanged(path string, content []byte) (bool, error) {
